@@ -69,7 +69,37 @@ func sameInstance(a, b any) bool {
 }
 
 var c07Gen = TreeGen{MaxDepth: 4, MaxWidth: 4, MinWidth: 0, NilLeaves: 12, Conds: 22, CondStackExpr: 55, CondCondExpr: 5,
-	Aliases: 25, IdxOpts: true, StackProb: 45}
+	Aliases: 25, IdxOpts: true, StackProb: 45, Leaf: c07Leaf}
+
+func init() {
+	// element values that are not nil interfaces although they hold nothing: Index hands them out, Traverse must too
+	extraLeaf["odd"] = func(l *LeafDesc) any {
+		switch l.I {
+		case 0:
+			return (*int)(nil)
+		case 1:
+			return map[string]int(nil)
+		case 2:
+			return []int(nil)
+		case 3:
+			return (chan int)(nil)
+		case 4:
+			return AStack{} // a zero-valued alias: an element like any other, not descendable
+		case 5:
+			return (*AStack)(nil)
+		case 6:
+			return stackage.Stack{}
+		}
+		return ACond{}
+	}
+}
+
+func c07Leaf(r *core.Rng) *LeafDesc {
+	if r.Chance(1, 7) {
+		return &LeafDesc{Tag: "odd", I: int64(r.Intn(8))}
+	}
+	return SimpleLeaf(r)
+}
 
 func c07Tier(tier string) int {
 	if tier == "thorough" {
